@@ -38,7 +38,8 @@ macro_rules! hue_ops {
             |a, _b| [$H::from_degrees(a).into_radians(), a - a],
             |a, _b| [$H::from_degrees(a).into_positive_radians(), a - a],
             |a, _b| [$H::from_degrees(a).into_raw_degrees(), $H::from_degrees(a).into_raw_radians()],
-            |a, _b| [$H::from_radians(a).into_raw_degrees(), $H::from_radians(a).into_degrees()],
+            |a, _b| [$H::from_radians(a).into_raw_degrees(), a - a],
+            |a, _b| [$H::from_radians(a).into_degrees(), $H::from_radians(a).into_positive_degrees()],
             |a, _b| {
                 let (x, y) = $H::from_degrees(a).into_cartesian();
                 [x, y]
@@ -56,13 +57,17 @@ macro_rules! hue_ops {
         ]
     };
 }
-const META: [(&str, bool, Cmp); 11] = [
+const META: [(&str, bool, Cmp); 12] = [
     ("into_degrees", false, Cmp::Deg),
     ("into_positive_degrees", false, Cmp::Deg),
     ("into_radians", false, Cmp::Rad),
     ("into_positive_radians", false, Cmp::Rad),
     ("into_raw", false, Cmp::Deg),
     ("from_radians", false, Cmp::Deg),
+    // the radians -> degrees product is rounded before the reduction to one turn, so next to a seam
+    // the two implementations may land on either side: compared on the circle (the exact seam
+    // behaviour of the reduction itself is decided by into_degrees / into_positive_degrees above)
+    ("from_radians_normalized", false, Cmp::CircDeg),
     ("into_cartesian", false, Cmp::Unit),
     ("from_cartesian", true, Cmp::CircDeg),
     ("add", true, Cmp::Deg),
@@ -130,7 +135,7 @@ fn close<S: Fl>(cmp: Cmp, a: S, b: S, in_deg: f64) -> (bool, f64) {
         Cmp::Unit => (x - y).abs() / 1f64.max(y.abs()),
         Cmp::CircDeg => {
             let d = (x - y).rem_euclid(360.0);
-            d.min(360.0 - d) / 360.0
+            d.min(360.0 - d) / 360f64.max(in_deg)
         }
     };
     (e <= tol, e / tol)
@@ -177,7 +182,7 @@ pub fn check_packed<V: Vect>(ty: &str, op: &HueOp<V>, ins: &[(V::S, V::S)], c: &
         if op.name == "from_cartesian" && la[j].to64() == 0.0 && lb[j].to64() == 0.0 {
             continue;
         }
-        let in_deg = if op.name == "from_radians" { la[j].to64().abs().to_degrees() } else { la[j].to64().abs().max(lb[j].to64().abs()) };
+        let in_deg = if op.name.starts_with("from_radians") { la[j].to64().abs().to_degrees() } else { la[j].to64().abs().max(lb[j].to64().abs()) };
         for k in 0..2 {
             h = pv::splitmix(h ^ rv[k][j].bits64());
             let (ok, ratio) = close(op.cmp, rv[k][j], rs[k], in_deg);
